@@ -156,12 +156,20 @@ Fixpoint is_upstream (G : list edge) (f : nat) (target id : bytes) : bool :=
 
 Definition has_nan (ps : list point) : bool := existsb (fun p => f64_is_nan (p_val p)) ps.
 
+(* a time that does not fit the int64 nanosecond column (outside 1677-09-21 .. 2262-04-11): refused like a
+   value that is not a number *)
+Definition min_ns : Z := (-9223372036854775808)%Z.
+Definition max_ns : Z := 9223372036854775807%Z.
+Definition bad_time (p : point) : bool := (p_time p <? min_ns)%Z || (max_ns <? p_time p)%Z.
+Definition bad_times (ps : list point) : bool := existsb bad_time ps.
+
 Inductive outcome (A : Type) := Ok (a : A) | Err (e : N).
 Arguments Ok {A}. Arguments Err {A}.
-(* error kinds: 1 NaN, 2 self edge, 3 root tombstone, 4 cycle, 5 node type missing *)
+(* error kinds: 1 NaN, 2 self edge, 3 root tombstone, 4 cycle, 5 node type missing, 6 time out of range *)
 
 Definition node_points (st : store) (id : bytes) (pts : list point) : outcome store :=
   if has_nan pts then Err 1 else
+  if bad_times pts then Err 6 else
   let ps := collapse pts in
   let '(rows, d) := merge_batch false (node_rows (s_nodes st) id) ps in
   Ok (mkStore (set_node_rows (s_nodes st) id rows) (update_hash (s_edges st) id d) (s_root st) (s_next st)).
@@ -174,6 +182,7 @@ Definition set_edge (G : list edge) (e' : edge) : list edge :=
 
 Definition edge_points (st : store) (node parent : bytes) (pts : list point) : outcome store :=
   if has_nan pts then Err 1 else
+  if bad_times pts then Err 6 else
   let ps := collapse pts in
   if bytes_eqb node parent then Err 2 else
   if bytes_eqb node (s_root st) &&
